@@ -25,7 +25,7 @@ try:
     m2 = re.search(r"\b(file|log|valid/internal|valid)/[\w.]*_test\.go", demo_txt)
     if m2:
         destdir = m2.group(1)
-    elif re.search(r"repo(sitory)? root", demo_txt):
+    elif re.search(r"repo(sitory)? root", demo_txt) or re.search(r"copy to \./|copy to \.\s*$", demo_txt.strip()):
         destdir = "."
     if dest_override:
         destdir = dest_override
